@@ -350,6 +350,10 @@ def r09_6(ctx, rep):
     for c in calls(fn):
         if isinstance(c.func, ast.Attribute) and isinstance(c.func.value, ast.Name) and c.func.value.id in sets and c.func.attr in ("clear", "pop", "popitem", "remove", "discard", "difference_update"):
             bad.append("line %d: %s" % (c.lineno, norm(c)[:60]))
+        # ... or on the fetched set itself, without a name in between
+        elif isinstance(c.func, ast.Attribute) and c.func.attr in ("clear", "pop", "popitem", "remove", "discard", "difference_update") and isinstance(c.func.value, ast.Call) \
+                and isinstance(c.func.value.func, ast.Attribute) and c.func.value.func.attr in ("get", "setdefault") and "connections" in norm(c.func.value.func.value):
+            bad.append("%s" % norm(c)[:70])
     for st in ast.walk(fn):
         if isinstance(st, ast.Delete):
             for t in st.targets:
@@ -467,6 +471,11 @@ def _m_clear_right(mod):
                     for i, st in enumerate(lst):
                         if isinstance(st, ast.Expr) and norm(st).endswith(".update(right_connected_variables)"):
                             lst.insert(i + 1, ast.parse("right_connected_variables.clear()").body[0])
+                            return True
+                        # the engine's form: the right-hand set is not a named local any more
+                        if isinstance(st, ast.Expr) and isinstance(st.value, ast.Call) and norm(st.value.func).endswith("_connected_variables.update") \
+                                and st.value.args and "flow_connections.get(" in norm(st.value.args[0]):
+                            lst.insert(i + 1, ast.parse("%s.clear()" % norm(st.value.args[0])).body[0])
                             return True
         return False
 
